@@ -146,7 +146,7 @@ class Explorer:
         self.lock = threading.Lock()
         self.stats = dict(cases=0, paths=0, infeasible=0, outside=0, aborted=0, asserts=0, ok=0, viol=0, unk=0, queries=0, q_unsat=0, q_sat=0, q_unk=0,
                           qsec=0.0, decisions=0, maxpc=0, crashes=0, timeouts=0, pending=0, events={}, by_id={}, notes_sum={}, global_stores=0, ws_viol=0, heap_errors=0)
-        self.reach = set(); self.reach_sym = set(); self.viols = []; self.unks = []; self.crashlog = []; self.samples = []; self.case_paths = {}
+        self.reach = set(); self.reach_sym = set(); self.viols = []; self.unks = []; self.crashlog = []; self.samples = []; self.case_paths = {}; self.case_sec = {}
         os.makedirs(outdir, exist_ok=True)
 
     def _one(self, case, prefix):
@@ -212,7 +212,7 @@ class Explorer:
                         x = st["by_id"].setdefault(i, [0, 0]); x[0] += a; x[1] += b
                     for n, v in r.get("notes", {}).items(): st["notes_sum"][n] = st["notes_sum"].get(n, 0) + v
                     self.reach.update(r.get("reach", [])); self.reach_sym.update(r.get("reach_sym", []))
-                    self.case_paths[case] = self.case_paths.get(case, 0) + 1
+                    self.case_paths[case] = self.case_paths.get(case, 0) + 1; self.case_sec[case] = self.case_sec.get(case, 0) + r.get("sec", 0)
                     if len(self.samples) < 3: self.samples.append({"case": list(case), "path": r["path"], "asserts": r["asserts"], "queries": r["queries"], "notes": r.get("notes", {})})
                     if on_path: on_path(case, r, sout)
                 elif k == "I": st["infeasible"] += 1; got_p = True
